@@ -18,7 +18,7 @@ VALUES = [0, 1, 2, 100, 2 ** 14 - 1, 2 ** 14, 2 ** 14 + 1, 2 ** 24 - 1, 2 ** 24,
           2 ** 31 - 1, 2 ** 31, 2 ** 32 - 1]
 QUICK_IDS = list(range(0, 17)) + [0xff, 0x100, 0x102, 0x1ff, 0xffff]
 ALPHABET = ("identifiers: quick %s, thorough all 0..65535; values %s; routes: received frame, update_settings, "
-            "Settings(initial_values); base states: handshaken / stream open / stream window raised to within 10 of 2^31-1; "
+            "Settings(initial_values); base states: handshaken / stream open / stream window raised to within 10 of 2^31-1 (an open stream; a promised, still reserved stream); "
             "both roles; plus two-entry frames (valid,invalid) in both orders and INITIAL_WINDOW_SIZE deltas landing exactly on / one past 2^31-1"
             % (QUICK_IDS, VALUES))
 BOUNDS = {"quick": "full grid product for 22 identifiers", "thorough": "full grid product for all 65536 identifiers"}
@@ -59,6 +59,13 @@ def base_states():
         o = h.rx([wire.window_update(1, inc)])
         assert o.kind == "ok", o.brief()
         out.append(("nearmax-" + role, client, pickle.dumps(h.conn), 2 ** 31 - 1 - 10))
+    # a server whose only near-maximum send window belongs to a stream it has promised but not yet started (reserved)
+    h = H.Solo(False)
+    for o in (h.rx([wire.headers(1, H.stateless_block(H.REQ))], ("headers", 1, False, False)),
+              h.api("push_stream", 1, 2, H.ni(H.REQ)),
+              h.rx([wire.window_update(2, (2 ** 31 - 1 - 10) - 65535)])):
+        assert o.kind == "ok", o.brief()
+    out.append(("nearmax-reserved-server", False, pickle.dumps(h.conn), 2 ** 31 - 1 - 10))
     return out
 
 
@@ -264,6 +271,6 @@ def run(ctx):
     n = 16 * 8 if ctx.tier == "thorough" else 11
     jobs = [{"ids": ids[i::n], "extras": i == 0} for i in range(n)]
     ctx.fanout("c12-grid-%s" % ctx.tier, jobs, "shard",
-               domain="%d identifiers x %d values x 3 routes x 6 base states" % (len(ids), len(VALUES)))
+               domain="%d identifiers x %d values x 3 routes x 7 base states" % (len(ids), len(VALUES)))
     ctx.notes["base_states"] = [b[0] for b in _bases()]
     ctx.fanouts[-1]["states"] = len(_bases())
